@@ -10,6 +10,7 @@ import (
 	"fmt"
 	"io"
 	"net"
+	"sync"
 
 	hclog "github.com/hashicorp/go-hclog"
 	"github.com/hashicorp/go-plugin/internal/grpcmux"
@@ -59,6 +60,7 @@ type GRPCServer struct {
 	config      GRPCServerConfig
 	server      *grpc.Server
 	broker      *GRPCBroker
+	brokerLock  sync.Mutex
 	stdioServer *grpcStdioServer
 
 	logger hclog.Logger
@@ -118,12 +120,23 @@ func (s *GRPCServer) Init() error {
 func (s *GRPCServer) Stop() {
 	// Close the broker first: once the server has stopped the process is
 	// free to exit, and the broker's listeners must be gone by then.
+	s.closeBroker()
+
+	s.server.Stop()
+}
+
+// closeBroker closes the broker once. Stop can be called from several
+// goroutines at the same time (two clients attached to one plugin that both
+// send the shutdown request, or a cancelled test context racing a client's
+// Kill), so the field is guarded.
+func (s *GRPCServer) closeBroker() {
+	s.brokerLock.Lock()
+	defer s.brokerLock.Unlock()
+
 	if s.broker != nil {
 		s.broker.Close()
 		s.broker = nil
 	}
-
-	s.server.Stop()
 }
 
 // GracefulStop calls GracefulStop on the underlying grpc.Server and Close on
@@ -131,10 +144,7 @@ func (s *GRPCServer) Stop() {
 func (s *GRPCServer) GracefulStop() {
 	s.server.GracefulStop()
 
-	if s.broker != nil {
-		s.broker.Close()
-		s.broker = nil
-	}
+	s.closeBroker()
 }
 
 // Config is the GRPCServerConfig encoded as JSON then base64.
